@@ -34,3 +34,35 @@ Theorem disabled_accepts_all c ops :
   fst (run c ops) = c /\ Forall (fun b => b = true) (snd (run c ops)).
 Proof. exact (disabled_accepts_all_lemma c ops). Qed.
 Print Assumptions disabled_accepts_all.
+
+(* One process: every service of every configuration generation checks against the cache slot
+   it was given. With ONE shared slot the placement of presentations over listeners, services
+   and reload generations is irrelevant: outcomes are those of the single cache on the sequence *)
+Theorem shared_cache_placement_irrelevant ref r0 pl st :
+  (forall sv, ref sv = r0) ->
+  snd (prun ref st pl) = snd (run (st r0) (map snd pl)) /\
+  fst (prun ref st pl) r0 = fst (run (st r0) (map snd pl)).
+Proof. exact (shared_cache_placement_irrelevant_lemma ref r0 pl st). Qed.
+Print Assumptions shared_cache_placement_irrelevant.
+
+(* ... so a handshake first presented to service a is refused when replayed to ANY service b *)
+Theorem cross_service_replay_refused W ref r0 st h a b mid :
+  (forall sv, ref sv = r0) ->
+  1 <= W -> caps_ge W (st r0) (Add h :: map snd mid) -> adds (map snd mid) <= W ->
+  last (snd (prun ref st ((a, Add h) :: mid ++ [(b, Add h)]))) true = false.
+Proof. exact (cross_service_replay_refused_lemma W ref r0 st h a b mid). Qed.
+Print Assumptions cross_service_replay_refused.
+
+(* the source gives every service the same slot (regenerated from main.go on every run): each
+   NewShadowsocksService call gets WithReplayCache(&s.replayCache), and the cache is constructed
+   only in RunOutlineServer — once per process, not per reload *)
+From OSS Require Gen.Consts.
+From Coq Require String.
+Import String.StringSyntax.
+Delimit Scope string_scope with string.
+Theorem one_cache_for_all_services :
+  Gen.Consts.replay_cache_args = ["&s.replayCache"; "&s.replayCache"]%string /\
+  List.length Gen.Consts.replay_cache_args = Gen.Consts.new_service_calls /\
+  Gen.Consts.replay_cache_constructed_in = ["RunOutlineServer"]%string.
+Proof. repeat split; reflexivity. Qed.
+Print Assumptions one_cache_for_all_services.
